@@ -78,8 +78,8 @@ func keyBook(n int) *book {
 
 var theBook = byteBook()
 
-func addr(a int) common.Address { return theBook.addrs[a-1] }
-func abstr(a common.Address) int  { return theBook.idx[a] }
+func addr(a int) common.Address  { return theBook.addrs[a-1] }
+func abstr(a common.Address) int { return theBook.idx[a] }
 
 // abstract tokens of the specification -> real values
 func appHashOf(h int) common.Hash { return crypto.Keccak256Hash([]byte(fmt.Sprintf("app-%d", h))) }
@@ -114,6 +114,22 @@ type world struct {
 	exec *cstate.BlockExecutor // ApplyBlock path (applyblock_test.go); nil on the store-level path
 	app  *stubApp
 	unit int64 // real voting power = abstract power * unit (1 except in the scaled shadow runs)
+
+	// oldBelow > 0: the states of heights below it are left in the database the way the code BEFORE the per-height
+	// validator-set records (commit 83d442d) wrote them: the same writes minus those records (old-database runs)
+	oldBelow int
+}
+
+// asOldCode removes the per-height records the Save of state st has just written.
+func (w *world) asOldCode(st *cstate.LatestBlockState) {
+	h := st.LastBlockHeight
+	if int(h) >= w.oldBelow {
+		return
+	}
+	if h == 0 {
+		rawdb.DeleteConsensusValidatorsInfo(w.db, cstate.VerifValInfoKeyAt(st.Validators.Hash(), 1))
+	}
+	rawdb.DeleteConsensusValidatorsInfo(w.db, cstate.VerifValInfoKeyAt(st.NextValidators.Hash(), h+2))
 }
 
 func genesisDoc(powers []int64, params int) *genesis.Genesis {
@@ -141,14 +157,14 @@ func (w *world) writeBlock(b *types.Block, app common.Hash) types.BlockID {
 
 // newWorld: fresh database, genesis block committed, genesis state created and saved by the real
 // LoadStateFromDBOrGenesisDoc (the call mainchain/backend.go makes at every start).
-func newWorld(powers []int64, params int) (*world, error) { return newWorldU(powers, params, 1) }
+func newWorld(powers []int64, params int) (*world, error) { return newWorldU(powers, params, 1, 0) }
 
-func newWorldU(powers []int64, params int, unit int64) (*world, error) {
+func newWorldU(powers []int64, params int, unit int64, oldBelow int) (*world, error) {
 	scaled := make([]int64, len(powers))
 	for i, p := range powers {
 		scaled[i] = p * unit
 	}
-	w := &world{db: memorydb.New(), gen: genesisDoc(scaled, params), unit: unit}
+	w := &world{db: memorydb.New(), gen: genesisDoc(scaled, params), unit: unit, oldBelow: oldBelow}
 	head := &types.Header{Time: genesisTime, Height: 0, GasLimit: configs.GenesisGasLimit, AppHash: appHashOf(0)}
 	gb := types.NewBlock(head, nil, &types.Commit{}, nil, hasher())
 	bid := w.writeBlock(gb, appHashOf(0))
@@ -161,6 +177,7 @@ func newWorldU(powers []int64, params int, unit int64) (*world, error) {
 		return nil, err
 	}
 	w.cur = st
+	w.asOldCode(&st)
 	w.chain = append(w.chain, snap(st))
 	return w, nil
 }
@@ -253,6 +270,7 @@ func (w *world) applyP(chs []change, params int) (res string) {
 	// then the consensus state (ApplyBlock -> store.Save)
 	w.writeBlock(b, ns.AppHash)
 	w.store.Save(ns)
+	w.asOldCode(&ns)
 	w.cur = ns
 	w.chain = append(w.chain, snap(ns))
 	w.blocks = append(w.blocks, b)
